@@ -27,11 +27,11 @@ def scope(field, exp, got, info):
 SPEC = dict(
     sig="fault", scope=scope,
     sc_list=[
-        dict(family="faults", n=(200, 1200), mc=dict(max_calls=11, after_end=1), mc_thorough=dict(max_calls=13), invariants=INV),
+        dict(family="faults", n=(200, 5000), mc=dict(max_calls=11, after_end=1), mc_thorough=dict(max_calls=13), invariants=INV),
         # one call of a random built-in per program: argument classes x statement kinds x nesting positions
         dict(family="domain", n=(700, 100000), mc=dict(max_calls=8, after_end=1), invariants=["StackDiscipline"]),
     ],
-    cs=[dict(family="faults", n=(120, 600), paths=(4, 6), calls=45, layouts=True,
+    cs=[dict(family="faults", n=(120, 2000), paths=(4, 6), calls=45, layouts=True,
              label="YarnTrace: random walks of bigger faulty programs")],
     nontrivial=lambda c: True,
     rule="valid scripts with faults sprinkled over every statement kind and nesting position: ill-typed operations, unknown variables / nodes / "
